@@ -52,6 +52,10 @@ def cases(tier):
         for p in range(nnum):        # every numeric operand position once with an operand that needs a temporary
             nums = [("INT(S{k})" if k == p else "S{k}").format(k=k + 1) for k in range(nnum)]
             combos.append((1, 1, nums, [STR_OPERANDS[0].format(k=k + 1) for k in range(nstr)]))
+        for special in ("-S{k}+8", "NOT S{k}", "+S{k}"):   # ... and once with an operand that starts with a sign / NOT
+            for p in range(nnum):
+                nums = [(special if k == p else "S{k}").format(k=k + 1) for k in range(nnum)]
+                combos.append((1, 1, nums, [STR_OPERANDS[0].format(k=k + 1) for k in range(nstr)]))
         for a, b, nums, strs in combos:
             body = instantiate(f["template"], nums, strs)
             # layouts: as written; blanks after commas and a blank + another statement behind it; trailing blank
@@ -144,7 +148,7 @@ def classify(case, impl, why):
         return "joystk-arity"
     if re.search(r"(?i)run ecb_h(circle|arc)\(.*RUN ecb_\w+\(.*\\ ", why):
         return "hoisted-call-captured-by-default-colour"
-    if case["kind"] in ("hscreen-n", "hcls-n", "cls-n") and re.match(r"^10 (HSCREEN|HCLS|CLS) (-|NOT )", case["text"]):
+    if case["kind"] in ("hscreen-n", "hcls-n", "cls-n") and re.match(r"^10 (HSCREEN|HCLS|CLS) (-|\+|NOT )", case["text"]):
         return "signed-operand-replaced-by-default"
     return None
 
